@@ -148,6 +148,29 @@ def run(ctx):
         ctx.expect(ok, "R19.1", "_worker[success path]",
                    "True is returned only after the download and then the post-processing completed", worker.loc(trues[0]))
     # handlers
+    from .fc import scenario_paths
+
+    def handler_scenarios(h):
+        """events on every path through the handler body for: another exception / not-found in strict mode / not-found in tolerant mode"""
+        out = {}
+        for label, nf, tol in (("other", False, True), ("other2", False, False), ("notfound_strict", True, False), ("notfound_tolerant", True, True)):
+            def oracle(test, e, nf=nf, tol=tol):
+                if isinstance(test, ast.Call) and isinstance(test.func, ast.Name) and test.func.id == "isinstance" and len(test.args) == 2 \
+                        and isinstance(test.args[0], ast.Name) and test.args[0].id == (h.name or "?") \
+                        and ast.unparse(test.args[1]).endswith("_RemoteResourceUriNotFound"):
+                    return nf
+                if isinstance(test, ast.Attribute) and test.attr == "allow_for_missing_files":
+                    return tol
+                if isinstance(test, ast.Call) and resolve_ext(p, worker, test) == "os.path.exists":
+                    return True         # the scenario: the partial file is there
+                return None
+
+            def ev_of(c):
+                return "cleanup" if resolve_ext(p, worker, c) in ("os.remove", "os.unlink") else None
+            paths = [ev_ for _, ev_ in scenario_paths(h.body, {}, oracle, ev_of)]
+            out[label] = paths
+        out["other"] = out["other"] + out.pop("other2")
+        return out
     for tr in [n for n in own_walk(wnode) if isinstance(n, ast.Try)]:
         for h in tr.handlers:
             names = handler_names(h)
@@ -155,8 +178,16 @@ def run(ctx):
             returns_value = any(isinstance(n, ast.Return) for b in h.body for n in ast.walk(b))
             cname = f"_worker[except {'/'.join(names)}]"
             if broad:
-                ctx.expect(ends_with_raise(h.body) and not returns_value, "R19.1", cname,
-                           "a handler broader than not-found must re-raise (no failure is turned into a result)", worker.loc(h))
+                okb = ends_with_raise(h.body) and not returns_value
+                if not okb:
+                    # one handler for everything that tells the not-found exception apart itself: decided per scenario
+                    sc = handler_scenarios(h)
+                    okb = bool(sc["other"]) and all("raise" in ev_ for ev_ in sc["other"]) \
+                        and bool(sc["notfound_strict"]) and all("raise" in ev_ for ev_ in sc["notfound_strict"]) \
+                        and bool(sc["notfound_tolerant"]) and all("return:False" in ev_ and "raise" not in ev_ for ev_ in sc["notfound_tolerant"])
+                ctx.expect(okb, "R19.1", cname,
+                           "a handler broader than not-found must re-raise (no failure is turned into a result; only the not-found "
+                           "exception in tolerant mode yields False)", worker.loc(h))
             else:
                 ok = all(n.endswith("_RemoteResourceUriNotFound") for n in names)
                 # must return False (never True) and re-raise unless tolerant
@@ -336,9 +367,16 @@ def run(ctx):
                        and c.args and ast.unparse(c.args[0]) == ast.unparse(d_arg)]
                 if rem and ends_with_raise(h.body) and any(n in ("BaseException", "<bare>", "Exception") for n in handler_names(h)):
                     cleanup = True
+                elif rem and any(n in ("BaseException", "<bare>", "Exception") for n in handler_names(h)):
+                    # a handler that also tolerates not-found: in every scenario the temporary file is removed, and every failure
+                    # other than the tolerated one is re-raised
+                    sc = handler_scenarios(h)
+                    if all("cleanup" in ev_ for k_ in sc for ev_ in sc[k_]) and all("raise" in ev_ for ev_ in sc["other"] + sc["notfound_strict"]) \
+                            and sc["other"] and sc["notfound_strict"]:
+                        cleanup = True
         ctx.expect(cleanup, "R19.3", "_worker[cleanup on failure]",
                    "a failed download or post-processing removes the temporary file and re-raises", worker.loc())
-    ctx.require_count("R19.1", 4)
+    ctx.require_count("R19.1", 3)
     ctx.require_count("R19.2", 4)
     ctx.require_count("R19.3", 4)
     ctx.functions_analysed.update({f.qualname: 1 for f in fc_methods + [dl, worker]})
